@@ -217,7 +217,7 @@ def sdml_fix_balance(name, kw, data):
     kw['balance_param'] = sdml_balance(data, lam)
   else:
     diam2 = float(((X.max(axis=0) - X.min(axis=0)) ** 2).sum())
-    npairs = 2 * kw.get('n_constraints', 20 * data['n_classes'] ** 2)
+    npairs = 2 * (kw.get('n_constraints') or 20 * (data['n_classes'] + 1) ** 2)
     kw['balance_param'] = float(2.0 ** np.floor(np.log2(0.2 * lam / (npairs * diam2))))
   return kw
 
